@@ -491,6 +491,42 @@ def _propagate_constants(modules, ref_names, report) -> set:
                         consts[t] = val
         if consts:
             new_consts[name] = consts
+    # class-level constants (new, bound once in the class body, never stored through self/cls/Class): loads through
+    # self.NAME / cls.NAME / Class.NAME are replaced
+    for name, mi in modules.items():
+        refn = ref_names.get(name)
+        if refn is None:
+            continue
+        for cnode in [n for n in mi.tree.body if isinstance(n, ast.ClassDef)]:
+            cc = {}
+            for b in cnode.body:
+                for t in _targets(b):
+                    if f"{cnode.name}.{t}" not in refn and _is_immutable_literal(b.value):
+                        cc[t] = b.value
+            if not cc:
+                continue
+            stored = {n.attr for m2 in modules.values() for n in ast.walk(m2.tree) if isinstance(n, ast.Attribute) and isinstance(n.ctx, (ast.Store, ast.Del))}
+            cc = {k: v for k, v in cc.items() if k not in stored}
+            if not cc:
+                continue
+
+            class CS(ast.NodeTransformer):
+                def __init__(self):
+                    self.count = 0
+
+                def visit_Attribute(self, n):
+                    self.generic_visit(n)
+                    if isinstance(n.ctx, ast.Load) and n.attr in cc and isinstance(n.value, ast.Name) and n.value.id in ("self", "cls", cnode.name):
+                        self.count += 1
+                        return _mark(ast.copy_location(copy.deepcopy(cc[n.attr]), n))
+                    return n
+            for fn in [x for x in cnode.body if isinstance(x, FuncT)]:
+                t_ = CS()
+                fn.body = [t_.visit(b) for b in fn.body]
+                if t_.count:
+                    touched.add(fn)
+                    report["constants_propagated"] += t_.count
+            report["constants"].extend(f"{name}.{cnode.name}.{k}" for k in cc)
     if not new_consts:
         return touched
     # substitute in the defining module and in modules importing the name
@@ -531,6 +567,237 @@ def _propagate_constants(modules, ref_names, report) -> set:
         report["constants"].extend(f"{name}.{k}" for k in new_consts.get(name, {}))
     return touched
 
+
+
+# --------------------------------------------------------------------------------------------------
+# N4: table-driven code (loops / comprehensions over literal tables, getattr with constant names, **literal dict)
+
+def _literal_items(e):
+    """elements of a literal tuple/list display whose items are literals; None otherwise"""
+    if isinstance(e, (ast.Tuple, ast.List)) and e.elts and len(e.elts) <= 24 and all(_is_literal(x) and not isinstance(x, ast.Call) for x in e.elts):
+        return list(e.elts)
+    return None
+
+
+def _bind_target(target, item):
+    """mapping name -> literal for `for target in (item, ...)`; None if shapes do not fit"""
+    if isinstance(target, ast.Name):
+        return {target.id: item}
+    if isinstance(target, (ast.Tuple, ast.List)) and isinstance(item, (ast.Tuple, ast.List)) and len(target.elts) == len(item.elts):
+        out = {}
+        for t, i in zip(target.elts, item.elts):
+            m = _bind_target(t, i)
+            if m is None:
+                return None
+            out.update(m)
+        return out
+    return None
+
+
+def _nest_continue_guards(body):
+    """if c: continue; REST   ->   if not c: REST      (top level of a loop body only); None if a continue/break remains"""
+    out = []
+    for i, st in enumerate(body):
+        if isinstance(st, ast.If) and not st.orelse and len(st.body) == 1 and isinstance(st.body[0], ast.Continue):
+            rest = _nest_continue_guards(body[i + 1:])
+            if rest is None:
+                return None
+            if rest:
+                new = ast.copy_location(ast.If(test=_negate(st.test), body=rest, orelse=[]), st)
+                out.append(new)
+            return out
+        out.append(st)
+    if _contains(out, (ast.Continue, ast.Break)):
+        # a continue/break that belongs to an inner loop is fine
+        for st in out:
+            for n in ast.walk(st):
+                if isinstance(n, (ast.Continue, ast.Break)):
+                    inner = False
+                    p_ = n
+                    # no parent pointers here: conservative check by searching inner loops
+                    for lp in ast.walk(st):
+                        if isinstance(lp, (ast.For, ast.While)) and any(x is n for x in ast.walk(lp)):
+                            inner = True
+                    if not inner:
+                        return None
+    return out
+
+
+class _FoldAttrs(ast.NodeTransformer):
+    """getattr(x, 'name') -> x.name ; f(**{'a': 1}) -> f(a=1)"""
+
+    def __init__(self):
+        self.count = 0
+
+    def visit_Call(self, node):
+        self.generic_visit(node)
+        if isinstance(node.func, ast.Name) and node.func.id == "getattr" and len(node.args) == 2 and not node.keywords \
+                and isinstance(node.args[1], ast.Constant) and isinstance(node.args[1].value, str) and node.args[1].value.isidentifier() \
+                and getattr(node.args[1], "_subst", False):
+            self.count += 1
+            new = ast.copy_location(ast.Attribute(value=node.args[0], attr=node.args[1].value, ctx=ast.Load()), node)
+            new._folded = True  # type: ignore[attr-defined]
+            return new
+        new_kw = []
+        changed = False
+        for k in node.keywords:
+            if k.arg is None and isinstance(k.value, ast.Dict) and getattr(k.value, "_subst", False) \
+                    and all(isinstance(x, ast.Constant) and isinstance(x.value, str) and x.value.isidentifier() for x in k.value.keys):
+                for kk, vv in zip(k.value.keys, k.value.values):
+                    new_kw.append(ast.keyword(arg=kk.value, value=vv))
+                changed = True
+            else:
+                new_kw.append(k)
+        if changed:
+            node.keywords = new_kw
+            self.count += 1
+        return node
+
+
+def _expand_table_code(fn, allow_unmarked: bool, report) -> int:
+    """unroll loops and comprehensions over literal tables inside fn"""
+    done = 0
+
+    def subst_copy(nodes, mapping, k):
+        new = []
+        for st in nodes:
+            c = copy.deepcopy(st)
+            c = _Subst(mapping, mark=True).visit(c)
+            new.append(c)
+        return new
+
+    def rec(block):
+        nonlocal done
+        i = 0
+        while i < len(block):
+            st = block[i]
+            if isinstance(st, ast.For) and not st.orelse:
+                items = _literal_items(st.iter)
+                if items is not None and (allow_unmarked or _has_mark(st.iter)):
+                    body = _nest_continue_guards(st.body)
+                    stores = set()
+                    for b in st.body:
+                        stores |= {n.id for n in ast.walk(b) if isinstance(n, ast.Name) and isinstance(n.ctx, (ast.Store, ast.Del))}
+                    tnames = {n.id for n in ast.walk(st.target) if isinstance(n, ast.Name)}
+                    binds = [_bind_target(st.target, it) for it in items]
+                    # the loop variable must not be read after the loop
+                    later = any(isinstance(n, ast.Name) and n.id in tnames for s2 in block[i + 1:] for n in ast.walk(s2))
+                    if body is not None and not (tnames & stores) and all(b is not None for b in binds) and not later:
+                        new = []
+                        for b in binds:
+                            new.extend(subst_copy(body, b, 0))
+                        block[i:i + 1] = new or [ast.copy_location(ast.Pass(), st)]
+                        done += 1
+                        report["unrolled"] = report.get("unrolled", 0) + 1
+                        continue
+            for fld in ("body", "orelse", "finalbody"):
+                b = getattr(st, fld, None)
+                if isinstance(b, list) and b and isinstance(b[0], ast.stmt) and not isinstance(st, FuncT + (ast.ClassDef,)):
+                    rec(b)
+            if isinstance(st, ast.Try):
+                for h in st.handlers:
+                    rec(h.body)
+            i += 1
+    rec(fn.body)
+
+    # comprehensions over literal tables -> displays
+    class Comp(ast.NodeTransformer):
+        def __init__(self):
+            self.n = 0
+
+        def _expand(self, node, build):
+            if len(node.generators) != 1:
+                return node
+            g = node.generators[0]
+            items = _literal_items(g.iter)
+            if items is None or g.is_async or not (allow_unmarked or _has_mark(g.iter)):
+                return node
+            binds = [_bind_target(g.target, it) for it in items]
+            if any(b is None for b in binds):
+                return node
+            elems = []
+            for b in binds:
+                keep = True
+                for c in g.ifs:
+                    cc = _Fold().visit(_Subst(b, mark=True).visit(copy.deepcopy(c)))
+                    ok, v = _const(cc)
+                    if not ok:
+                        return node
+                    keep = keep and bool(v)
+                if keep:
+                    elems.append(b)
+            self.n += 1
+            return ast.copy_location(_mark(build(elems)), node)
+
+        def visit_ListComp(self, node):
+            self.generic_visit(node)
+            return self._expand(node, lambda bs: ast.List(elts=[_Subst(b, mark=True).visit(copy.deepcopy(node.elt)) for b in bs], ctx=ast.Load()))
+
+        def visit_DictComp(self, node):
+            self.generic_visit(node)
+            return self._expand(node, lambda bs: ast.Dict(keys=[_Subst(b, mark=True).visit(copy.deepcopy(node.key)) for b in bs],
+                                                          values=[_Subst(b, mark=True).visit(copy.deepcopy(node.value)) for b in bs]))
+    c = Comp()
+    fn.body = [c.visit(b) for b in fn.body]
+    done += c.n
+    if c.n:
+        report["comprehensions_expanded"] = report.get("comprehensions_expanded", 0) + c.n
+    # **name where name is bound once to an expanded dict display and only used there
+    asg: dict[str, list] = {}
+    for n in ast.walk(fn):
+        if isinstance(n, ast.Assign) and len(n.targets) == 1 and isinstance(n.targets[0], ast.Name):
+            asg.setdefault(n.targets[0].id, []).append(n)
+    for name, sts in asg.items():
+        if len(sts) != 1 or not isinstance(sts[0].value, ast.Dict) or not getattr(sts[0].value, "_subst", False):
+            continue
+        uses = [n for n in ast.walk(fn) if isinstance(n, ast.Name) and n.id == name and isinstance(n.ctx, ast.Load)]
+        kws = [k for n in ast.walk(fn) if isinstance(n, ast.Call) for k in n.keywords if k.arg is None and isinstance(k.value, ast.Name) and k.value.id == name]
+        if len(uses) == 1 and len(kws) == 1:
+            removed = False
+            for holder in ast.walk(fn):
+                for fld in ("body", "orelse", "finalbody"):
+                    blk = getattr(holder, fld, None)
+                    if isinstance(blk, list) and any(x is sts[0] for x in blk):
+                        blk[:] = [x for x in blk if x is not sts[0]] or [ast.copy_location(ast.Pass(), sts[0])]
+                        removed = True
+            if removed:
+                kws[0].value = sts[0].value
+                done += 1
+    f = _FoldAttrs()
+    fn.body = [f.visit(b) for b in fn.body]
+    done += f.count
+    # aliases produced by folded getattr:  x = obj.attr ; ... x ...  ->  ... obj.attr ...   (until x is re-bound)
+    def alias_pass(block):
+        nonlocal done
+        i = 0
+        while i < len(block):
+            st = block[i]
+            if isinstance(st, ast.Assign) and len(st.targets) == 1 and isinstance(st.targets[0], ast.Name) and getattr(st.value, "_folded", False) \
+                    and isinstance(st.value, ast.Attribute):
+                x = st.targets[0].id
+                # the receiver chain must be names/attributes only (stable, side-effect free to re-read)
+                if _simple_arg(st.value.value):
+                    j = i + 1
+                    while j < len(block):
+                        nxt = block[j]
+                        rebinds = any(isinstance(n, ast.Name) and n.id == x and isinstance(n.ctx, (ast.Store, ast.Del)) for n in ast.walk(nxt))
+                        if rebinds:
+                            break
+                        block[j] = _Subst({x: st.value}, mark=False).visit(nxt)
+                        j += 1
+                    still = any(isinstance(n, ast.Name) and n.id == x and isinstance(n.ctx, ast.Load) for s2 in block[i + 1:j] for n in ast.walk(s2))
+                    after_rebind = j < len(block)
+                    if not still and (after_rebind or not any(isinstance(n, ast.Name) and n.id == x and isinstance(n.ctx, ast.Load) for s2 in block[j:] for n in ast.walk(s2))):
+                        del block[i]
+                        done += 1
+                        continue
+            for fld in ("body", "orelse", "finalbody"):
+                b = getattr(st, fld, None)
+                if isinstance(b, list) and b and isinstance(b[0], ast.stmt) and not isinstance(st, FuncT + (ast.ClassDef,)):
+                    alias_pass(b)
+            i += 1
+    alias_pass(fn.body)
+    return done
 
 # --------------------------------------------------------------------------------------------------
 # N3: parameters that nobody passes
@@ -1713,8 +1980,30 @@ def normalise(modules: dict, pkg: str = "rtflite") -> dict:
     touched |= _specialise_defaults(modules, ref_funcs, report)
     for fn in touched:
         report["folded"] += _fold_function(fn)
+
+    def table_pass():
+        for name, mi in modules.items():
+            reff = ref_funcs.get(name)
+            if reff is None:
+                continue
+            for q, fn in _index_funcs(mi.tree).items():
+                if ".<locals>." in q:
+                    continue
+                rf = reff.get(q)
+
+                def literal_loops(f):
+                    return sum(1 for n in ast.walk(f) if (isinstance(n, ast.For) and _literal_items(n.iter) is not None)
+                               or (isinstance(n, ast.comprehension) and _literal_items(n.iter) is not None))
+                allow = rf is None or literal_loops(rf) == 0
+                if literal_loops(fn) == 0 and not any(isinstance(n, ast.Call) and isinstance(n.func, ast.Name) and n.func.id == "getattr" for n in ast.walk(fn)):
+                    continue
+                if _expand_table_code(fn, allow, report):
+                    report["folded"] += _fold_function(fn)
+    table_pass()
     _inline_helpers(modules, ref_funcs, report)
     _inline_closures(modules, ref_funcs, report)
+    if report["inlined"]:
+        table_pass()
     if report["inlined"]:
         _drop_default_args(modules, report)
         for mi in modules.values():
